@@ -24,10 +24,12 @@ ENV = {'XLA_FLAGS': '--xla_force_host_platform_device_count=8'}
 MIN_HITS = {
     'quick': {'mon:oracle': 300, 'mon:diag': 300, 'mon:sanitize': 300, 'variant:jit': 60, 'variant:perm': 60,
               'variant:debug': 40, 'variant:pmap': 40, 'mon:empty': 5, 'mon:ownkey': 10, 'empty-client': 20,
-              'empty-round-after-nonempty-round:stateful-server': 4},
+              'empty-round-after-nonempty-round:stateful-server': 4, 'x64-round': 40, 'mon:x64': 100, 'mon:optwrap': 200,
+              'copt=nesterov': 8, 'sopt=nesterov': 8},
     'thorough': {'mon:oracle': 6000, 'mon:diag': 6000, 'mon:sanitize': 6000, 'variant:jit': 1000, 'variant:perm': 1000,
                  'variant:debug': 600, 'variant:pmap': 600, 'mon:empty': 100, 'mon:ownkey': 100, 'empty-client': 400,
-                 'empty-round-after-nonempty-round:stateful-server': 80},
+                 'empty-round-after-nonempty-round:stateful-server': 80, 'x64-round': 700, 'mon:x64': 2000, 'mon:optwrap': 3000,
+                 'copt=nesterov': 150, 'sopt=nesterov': 150},
 }
 TECHNIQUE = 'runtime monitoring: float64 reference-model oracle + backend/permutation differential + input-state sanitizer over seeded multi-round histories'
 LEVEL_TEXT = ('Every round of every generated history is executed by the real federated_averaging on three backends and judged '
@@ -52,9 +54,9 @@ def gen_history(rng, quick):
   elif mode < 0.25:
     sizes[rng.randint(n_clients)] = 0
   lr = float(np.round(rng.uniform(0.01, 0.3), 3))
-  cspec = [('sgd', lr), ('momentum', lr, 0.9), ('adam', min(lr, 0.1)), ('adagrad', lr)][rng.choice(4, p=[.4, .25, .15, .2])]
+  cspec = [('sgd', lr), ('momentum', lr, 0.9), ('adam', min(lr, 0.1)), ('adagrad', lr), ('nesterov', lr, 0.9)][rng.choice(5, p=[.35, .2, .15, .15, .15])]
   slr = float(np.round(rng.uniform(0.1, 1.5), 3))
-  sspec = [('sgd', 1.0), ('sgd', slr), ('momentum', slr, 0.9), ('adam', 0.05)][rng.choice(4, p=[.35, .25, .25, .15])]
+  sspec = [('sgd', 1.0), ('sgd', slr), ('momentum', slr, 0.9), ('adam', 0.05), ('nesterov', slr, 0.8)][rng.choice(5, p=[.3, .2, .2, .15, .15])]
   bs = int([1, 2, 3, 4, 7, 16][rng.randint(6)])
   ne = [1, 2, None][rng.choice(3, p=[.5, .3, .2])]
   ns = [None, 0, 1, 3][rng.choice(4, p=[.55, .05, .2, .2])]
@@ -121,7 +123,7 @@ def verify_snapshot(ctx, snap, what, wit):
   ctx.check(ok, f'sanitize/{what}', f'{what}: a caller-owned array was deleted or changed by apply', wit)
 
 
-def run_history(ctx, fedjax, jax, jnp, h, rng):
+def run_history(ctx, fedjax, jax, jnp, h, rng, x64=False):
   from fedjax.algorithms import fed_avg
   from fedjax.core import for_each_client as fec
   dim, kind = h['dim'], h['kind']
@@ -132,13 +134,21 @@ def run_history(ctx, fedjax, jax, jnp, h, rng):
   for i, n in enumerate(h['sizes']):
     cid = b'c%02d' % i
     raw[cid] = toy.make_client(drng, n, dim, w_true, idx_base=base)
+    if x64:
+      # 64-bit mode: float64 data and parameters; the round must then be accurate to float64 rounding
+      raw[cid] = {k: (v.astype(np.float64) * (1 + 1e-9 * (1 + np.arange(v.size).reshape(v.shape))) if v.dtype.kind == 'f' else v)
+                  for k, v in raw[cid].items()}
     for v in raw[cid].values():
       v.flags.writeable = False
     base += n
   ids = sorted(raw)
   init = toy.make_params(drng, dim, kind)
+  if x64:
+    init = toy.tmap(lambda a: np.asarray(a, np.float64) * (1 + 1e-9), init)
   hp = fedjax.ShuffleRepeatBatchHParams(**h['hp'])
   wit = {k: h[k] for k in ('dim', 'kind', 'sizes', 'cspec', 'sspec', 'hp', 'cohorts', 'nd')}
+  if x64:
+    wit['jax_enable_x64'] = True
 
   variants = ['jit', 'perm', 'debug', f'pmap']
   algos, states = {}, {}
@@ -186,6 +196,10 @@ def run_history(ctx, fedjax, jax, jnp, h, rng):
       ctx.count('discarded-illconditioned')
       break
     tol = 3e-5 * scale * np.sqrt(steps_total + 1.0) + 50 * gap
+    if x64:
+      # same conditioning estimate (float32-vs-float64 oracle gap), scaled from float32 to float64 rounding with a 64x margin
+      tol = tol * 2.0**-29 * 64
+      ctx.count('x64-round')
     all_empty = sum(sizes_in) == 0
 
     for v in variants:
@@ -206,6 +220,9 @@ def run_history(ctx, fedjax, jax, jnp, h, rng):
       verify_snapshot(ctx, snap, 'input-state', {**wit, 'round': rnd, 'variant': v})
       verify_snapshot(ctx, ksnap, 'client-keys', {**wit, 'round': rnd, 'variant': v})
       got = toy.to_np(new_state.params)
+      if x64:
+        ctx.check(all(np.asarray(l).dtype == np.float64 for l in toy.leaves(got)), f'x64/params-dtype-{v}',
+                  'float64 parameters came back in another dtype under jax_enable_x64', {**wit, 'round': rnd, 'variant': v})
       diff = toy.max_abs_diff(got, o64.params)
       ctx.check(
           toy.all_finite(got) and diff <= tol, f'oracle/params-{v}',
@@ -221,7 +238,7 @@ def run_history(ctx, fedjax, jax, jnp, h, rng):
         if cid in diag:
           dn = float(np.asarray(diag[cid]['delta_l2_norm']))
           ctx.check(
-              np.isfinite(dn) and abs(dn - norms64[cid]) <= tol + 1e-4 * norms64[cid], f'diag/delta-norm-{v}',
+              np.isfinite(dn) and abs(dn - norms64[cid]) <= tol + (1e-11 if x64 else 1e-4) * norms64[cid], f'diag/delta-norm-{v}',
               f'round {rnd} [{v}]: delta_l2_norm {dn} vs reference {norms64[cid]}',
               {**wit, 'round': rnd, 'variant': v, 'client': cid})
       if all_empty:
@@ -290,6 +307,53 @@ def run_ownkey(ctx, fedjax, jax, jnp, rng):
   ctx.case_done(('ownkey', backend, ctx.cur_case), klass='ownkey')
 
 
+def run_optwrap(ctx, fedjax, jax, jnp, rng):
+  """fedjax.optimizers.<name>(**kwargs) must behave as optax.<name>(**kwargs): every argument is forwarded (differential
+  against optax driven directly, three steps on a small tree)."""
+  import optax
+  O = fedjax.optimizers
+  lr = float(np.round(rng.uniform(0.01, 0.5), 3))
+  mom = float([0.5, 0.9, 0.99][rng.randint(3)])
+  b = lambda: bool(rng.rand() < 0.5)
+  menu = {
+      'sgd': dict(learning_rate=lr, momentum=[None, mom][rng.randint(2)], nesterov=b()),
+      'adam': dict(learning_rate=lr, b1=float([0.9, 0.5][rng.randint(2)]), b2=float([0.999, 0.9][rng.randint(2)]),
+                   eps=float([1e-8, 1e-3][rng.randint(2)]), eps_root=float([0.0, 1e-4][rng.randint(2)])),
+      'adagrad': dict(learning_rate=lr, initial_accumulator_value=float([0.1, 1.0, 0.0][rng.randint(3)]), eps=float([1e-7, 1e-3][rng.randint(2)])),
+      'rmsprop': dict(learning_rate=lr, decay=float([0.9, 0.5][rng.randint(2)]), eps=float([1e-8, 1e-3][rng.randint(2)]),
+                      initial_scale=float([0.0, 1.0][rng.randint(2)]), centered=b(), momentum=[None, mom][rng.randint(2)], nesterov=b()),
+      'yogi': dict(learning_rate=lr, b1=float([0.9, 0.5][rng.randint(2)]), b2=float([0.999, 0.9][rng.randint(2)]), eps=float([1e-3, 1e-5][rng.randint(2)])),
+  }
+  name = sorted(menu)[ctx.evaluations % len(menu)]
+  kwargs = menu[name]
+  if name in ('sgd', 'rmsprop') and kwargs['momentum'] is None:
+    kwargs['nesterov'] = False
+  wit = {'optimizer': name, 'kwargs': kwargs}
+  import inspect
+  for fn in (getattr(O, name), getattr(optax, name)):
+    kwargs = {k: v for k, v in kwargs.items() if k in inspect.signature(fn).parameters}
+  r = ctx.call(f'optimizers.{name}', getattr(O, name), witness=wit, **kwargs)
+  if not r.ok:
+    return ctx.case_done(None, sample=wit, klass='optwrap:raised')
+  fopt, oopt = r.value, getattr(optax, name)(**kwargs)
+  p0 = {'w': jnp.asarray(rng.randn(3).astype(np.float32)), 'b': jnp.asarray(np.float32(rng.randn()))}
+  fp, fs = p0, fopt.init(p0)
+  op, os_ = p0, oopt.init(p0)
+  for step in range(3):
+    g = {'w': jnp.asarray(rng.randn(3).astype(np.float32)), 'b': jnp.asarray(np.float32(rng.randn()))}
+    rr = ctx.call(f'optimizers.{name}.apply', fopt.apply, g, fs, fp, witness={**wit, 'step': step})
+    if not rr.ok:
+      return ctx.case_done(None, sample=wit, klass='optwrap:raised')
+    fs, fp = rr.value
+    upd, os_ = oopt.update(g, os_, op)
+    op = optax.apply_updates(op, upd)
+    d = toy.max_abs_diff(toy.to_np(fp), toy.to_np(op))
+    ctx.check(d <= 1e-6 * max(1.0, toy.max_abs(toy.to_np(op))), f'optwrap/{name}-differs-from-optax',
+              f'fedjax.optimizers.{name}({kwargs}) differs from optax.{name} with the same arguments after step {step} by {d:.3g}',
+              {**wit, 'step': step, 'fedjax': toy.to_np(fp), 'optax': toy.to_np(op)})
+  ctx.case_done(('optwrap', name, tuple(sorted((k, str(v)) for k, v in kwargs.items()))), sample=wit, klass=['optwrap', 'optwrap:' + name])
+
+
 def run(ctx):
   import jax
   import jax.numpy as jnp
@@ -299,9 +363,33 @@ def run(ctx):
   err = toy.selfcheck_optimizers()
   if err:
     raise core.Inconclusive('oracle self-check failed: ' + err)
+  if ctx.xproc_child == 'x64':
+    # fresh interpreter started with JAX_ENABLE_X64=1 (see the end of run()): float64 histories only
+    if not jax.config.jax_enable_x64:
+      raise core.HarnessError('x64 child started without jax_enable_x64')
+    for cid, rng in ctx.cases('x64', 40 if ctx.quick else 600):
+      h = gen_history(rng, ctx.quick)
+      if h['cspec'][0] in ('adam', 'adagrad'):
+        h['cspec'] = ('sgd', h['cspec'][1])      # linear, well-conditioned rules only at float64 tolerances
+      if h['sspec'][0] == 'adam':
+        h['sspec'] = ('sgd', 1.0)
+      run_history(ctx, fedjax, jax, jnp, h, rng, x64=True)
+    return
   n = 160 if ctx.quick else 3000
   for cid, rng in ctx.cases('hist', n):
     h = gen_history(rng, ctx.quick)
     run_history(ctx, fedjax, jax, jnp, h, rng)
   for cid, rng in ctx.cases('ownkey', 24 if ctx.quick else 200):
     run_ownkey(ctx, fedjax, jax, jnp, rng)
+  for cid, rng in ctx.cases('optwrap', 120 if ctx.quick else 1500):
+    run_optwrap(ctx, fedjax, jax, jnp, rng)
+  # configuration the library must be indifferent to: the same kind of histories in 64-bit mode (float64 data and parameters,
+  # float64-level tolerance), in a fresh interpreter started with JAX_ENABLE_X64=1
+  if ctx.replay_case is None or ctx.replay_case.startswith('x64/'):
+    from vmon import xproc
+    ctx.absorb(xproc.run_family(ctx, 'vmon.checks.c01', 'x64', env={'JAX_ENABLE_X64': '1'}))
+
+
+if __name__ == '__main__':
+  from vmon import xproc as _xproc
+  _xproc.child_main(_xproc.family_handler(__name__))
